@@ -9,15 +9,14 @@
 (* These operators are (a) enumerated by MCStrData over all small sections *)
 (* and (b) evaluated by StrDataObs on observations of real links.          *)
 (***************************************************************************)
-EXTENDS Integers, Sequences, FiniteSets
+EXTENDS Integers, Sequences, FiniteSets, SequencesExt
 
-(* bytes of one section: each string followed by NUL (0) *)
-RECURSIVE Flatten(_)
-Flatten(strs) == IF strs = <<>> THEN <<>> ELSE Head(strs) \o <<0>> \o Flatten(Tail(strs))
+(* bytes of one section: each string followed by NUL (0). (FlattenSeq is evaluated iteratively by
+   TLC, so sections with hundreds of strings do not exhaust the evaluator's stack.) *)
+Flatten(strs) == FlattenSeq([i \in 1..Len(strs) |-> strs[i] \o <<0>>])
 
 (* index (1-based) of the first NUL at or after position p (1-based) *)
-RECURSIVE NulFrom(_, _)
-NulFrom(bytes, p) == IF bytes[p] = 0 THEN p ELSE NulFrom(bytes, p + 1)
+NulFrom(bytes, p) == CHOOSE q \in p..Len(bytes) : bytes[q] = 0 /\ \A r \in p..(q - 1) : bytes[r] # 0
 
 (* what a reference at byte offset `off` (0-based) into the section must read *)
 ExpectedAt(strs, off) ==
